@@ -45,12 +45,13 @@ theorem unquoted_respell_part (σ kwMap wsMap : Text → Text) {k : Node} (h : I
   obtain ⟨t, ht, hv⟩ := part_value_respell (f := renameRespell σ kwMap wsMap) h
   simp only [unquoted, hv, renameRespell_ident σ kwMap wsMap ht]
 
-/-- **C12 for renamings.**  Replace the placeholder names by `σ` (every renamed name and its replacement `Blocked`, e.g.
-quoted, or containing a digit, `_` or a letter other than a b c e l r s t), re-case/re-space keywords by `kwMap`,
+/-- **C12 for renamings.**  Replace the placeholder names by `σ` (every renamed name and its replacement `NameOk`: quoted,
+or containing a digit, `_` or a letter other than a b c e l r s t, or simply not one of the 35 contiguous pieces of
+`create`/`table`/`as`), re-case/re-space keywords by `kwMap`,
 change whitespace values by `wsMap`: the accessors of the reference's `Identifier` return `remove_quotes` of the
 written name `σ n1`, qualifier `σ q1` and alias `σ k1`. -/
 theorem identifier_accessors_renamed (c : Ctx) (hc : c ∈ contexts) (r : RefSpec) (hr : r ∈ refSpecs)
-    (σ kwMap wsMap : Text → Text) (hσ : ∀ v, σ v = v ∨ (Blocked (σ v) ∧ Blocked v))
+    (σ kwMap wsMap : Text → Text) (hσ : ∀ v, σ v = v ∨ (NameOk (σ v) ∧ NameOk v))
     (hk : ∀ v, CtxEq kwNorm (kwMap v) v) (hw : ∀ v, CtxEq kwNorm (wsMap v) v) (fuel : Nat) (hfuel : skelFuel ≤ fuel) :
     ∃ (ts : List Tok) (tree : Node) (K : List Node),
       lex defaultCfg (c.pre ++ r.text ++ c.post).toArray = .ok ts ∧
@@ -90,6 +91,38 @@ theorem identifier_accessors_renamed (c : Ctx) (hc : c ∈ contexts) (r : RefSpe
   · rw [hacc.parentName, hopt qual _ hacc.partQual hvq]
   · rw [hacc.aliasName, hopt alias _ hacc.partAlias hva]
   · rw [hacc.name, hopt alias _ hacc.partAlias hva, hreal]
+
+end Acc
+end Sql
+
+namespace Sql
+namespace Acc
+
+/-- the hypotheses are satisfiable: write `"Order Id"` for `n1`, `` `s 1` `` for `q1`, `o` for `k1`, keep everything else -/
+def exampleRename (v : Text) : Text :=
+  if v == txt "n1" then txt "\"Order Id\"" else if v == txt "q1" then txt "`s 1`" else if v == txt "k1" then txt "o"
+  else v
+
+example : ∀ v, exampleRename v = v ∨ (NameOk (exampleRename v) ∧ NameOk v) := by
+  intro v
+  unfold exampleRename
+  split
+  · rename_i h
+    have : v = txt "n1" := by simpa using h
+    subst this
+    exact Or.inr ⟨Or.inl ⟨34, by decide +kernel, by decide +kernel⟩, Or.inl ⟨49, by decide +kernel, by decide +kernel⟩⟩
+  · split
+    · rename_i h
+      have : v = txt "q1" := by simpa using h
+      subst this
+      exact Or.inr ⟨Or.inl ⟨96, by decide +kernel, by decide +kernel⟩, Or.inl ⟨49, by decide +kernel, by decide +kernel⟩⟩
+    · split
+      · rename_i h
+        have : v = txt "k1" := by simpa using h
+        subst this
+        exact Or.inr ⟨Or.inl ⟨111, by decide +kernel, by decide +kernel⟩,
+          Or.inl ⟨49, by decide +kernel, by decide +kernel⟩⟩
+      · exact Or.inl rfl
 
 end Acc
 end Sql
